@@ -16,6 +16,7 @@ def run(facts, tier):
         ("register stores", H.register_stores, 10, "every register store is a max"),
         ("tautologies", lambda fa: generic_lints.tautologies(fa, ('hll/',)), 2, "no comparison / assignment / min-max with two identical operands, no if-else with identical arms"),
         ("duplicate operands", lambda fa: generic_lints.duplicate_conjuncts(fa, ('hll/',)), 2, "no logical chain tests the same operand twice (copy-paste of the wrong peer)"),
+        ("stale aliases", lambda fa: generic_lints.stale_aliases(fa, ('hll/',)), 1, "no use of a local pointer alias after its origin was re-assigned and the replaced object released (use after free; the replacement never receives the operation)"),
     ):
         o = f(facts)
         obs += o
